@@ -1,6 +1,8 @@
 import ScVerif.Base.Line
 import ScVerif.C11.Lockset
 import ScVerif.C11.Slice
+import ScVerif.C11.ExecCheck
+import ScVerif.C11.ExecNeed
 /-! Driver handler for C11: evaluates the executable lockset definitions on rows sent by the harness.
 
 Row encoding (no spaces): `field,kind,phase,role,held,rel,acq` with `kind ∈ {R,W}`, `phase ∈ {init,live}`,
@@ -11,6 +13,15 @@ Row encoding (no spaces): `field,kind,phase,role,held,rel,acq` with `kind ∈ {R
 * `grouped <row> <row> …`   → `grouped=<0|1> sorted=<0|1> racefree=<0|1>` (the kernel's decision `raceFreeG`)
 * `frozen <field> <row> …`  → `<0|1>` (`frozenInB`: no live write row of that field)
 * `append <len> <cap> <n>`  → `inplace=<0|1> writes=<cell;cell;…|->` (`appendInPlace`, `appendWrites` on a slice of array 0)
+* `exec <cr> <ev> <ev> …`   → `ok=<accepted> L0=<shared>/<excl> L1=… L2=… C0=<0|1> C1=… C2=… pub=<0|1> got=<n>`: the execution
+  semantics of `Exec.lean` run as far as it allows (`xrunCount`), with the holders of locks 0..2 and the closed
+  channels 0..2 in the state reached; events `A/t/l/R|X` (acquire), `U/t/l/R|X` (release), `C/t/c` (close),
+  `O/t/c` (observe closed), `P/t` (publish), `G/t` (obtain the reference), `D/t` (leave: done with the
+  object), `J/t` (join)
+* `racy <rowA> <rowB>`      → `valid=<0|1> conf=<0|1> sync=<0|1> ordered=<0|1> consistent=<0|1>`: the witness execution
+  `racyExec a b` of `ExecNeed.lean` — is it an execution (`xrunCount`), does it do what the rows say
+  (`conformsB`, roles as in the theorem), is there a synchronisation between the two accesses (`syncBetween`),
+  does the discipline order the pair (`orderedB`); `consistent` = not (valid ∧ conf ∧ ordered)
 -/
 namespace ScVerif.C11
 open ScVerif.Line
@@ -40,6 +51,30 @@ def parseRow? (s : String) : Option Access :=
   | _ => none
 
 def bit (b : Bool) : String := if b then "1" else "0"
+
+def parseMode? : String → Option LMode
+  | "R" => some LMode.shared
+  | "X" => some LMode.excl
+  | _ => none
+
+def parseEv? (s : String) : Option XEv :=
+  match s.splitOn "/" with
+  | ["A", t, l, m] => do pure (XEv.acq (← parseNat? t) (← parseNat? l) (← parseMode? m))
+  | ["U", t, l, m] => do pure (XEv.rel (← parseNat? t) (← parseNat? l) (← parseMode? m))
+  | ["C", t, c] => do pure (XEv.close (← parseNat? t) (← parseNat? c))
+  | ["O", t, c] => do pure (XEv.obs (← parseNat? t) (← parseNat? c))
+  | ["P", t] => do pure (XEv.pub (← parseNat? t))
+  | ["G", t] => do pure (XEv.get (← parseNat? t))
+  | ["D", t] => do pure (XEv.leave (← parseNat? t))
+  | ["J", t] => do pure (XEv.join (← parseNat? t))
+  | _ => none
+
+def showExec (n : Nat) (s : XState) : String :=
+  let lk (l : Nat) : String :=
+    let hs := s.held.filter fun e => e.2.1 == l
+    s!"L{l}={(hs.filter fun e => e.2.2 == LMode.shared).length}/{(hs.filter fun e => e.2.2 == LMode.excl).length}"
+  let ch (c : Nat) : String := s!"C{c}={bit (s.closed.contains c)}"
+  s!"ok={n} {lk 0} {lk 1} {lk 2} {ch 0} {ch 1} {ch 2} pub={bit s.pubd} got={s.got.length}"
 
 def handle (toks : List String) : String :=
   match toks with
@@ -71,6 +106,22 @@ def handle (toks : List String) : String :=
         s!"inplace={bit (appendInPlace s n)} writes={if ws.isEmpty then "-" else ";".intercalate ws}"
       else "!bad-op"
     | _, _, _ => "!bad-op"
+  | ["racy", a, b] =>
+    match parseRow? a, parseRow? b with
+    | some a, some b =>
+      let es := racyExec a b
+      let n := (racyPre a b).length
+      let valid := (xrunCount 1 XState.init es).1 == es.length
+      let conf := conformsB 1 (fun r => if r = a.role then 1 else 2) [a, b] es
+      let ord := orderedB a b
+      s!"valid={bit valid} conf={bit conf} sync={bit (syncBetween es n (n + 1))} ordered={bit ord} consistent={bit (!(valid && conf && ord))}"
+    | _, _ => "!bad-op"
+  | "exec" :: cr :: evs =>
+    match parseNat? cr, evs.mapM parseEv? with
+    | some cr, some es =>
+      let r := xrunCount cr XState.init es
+      showExec r.1 r.2
+    | _, _ => "!bad-op"
   | _ => "!bad-op"
 
 end ScVerif.C11
